@@ -43,8 +43,10 @@ PROPS = {
     'C04': dict(level='proof', scenarios=[('history', 4000, 30000, 'recv'), ('recvmatrix', 1500, 20000, '')],
                 tags=[r'^tx:[A-Za-z]+:deps$', r'^ev:(MintAndWithdraw|MessageReceived)$', r'^ledger$', r'^supply$'],
                 ops=[('tx', 'ReceiveMessage')]),
-    'C05': dict(level='proof', scenarios=[('history', 4000, 30000, 'send'), ('depmatrix', 1500, 20000, '')],
+    'C05': dict(level='proof', scenarios=[('history', 4000, 30000, 'send'), ('depmatrix', 1500, 20000, ''), ('replace', 1500, 20000, '')],
                 tags=[r'^tx:' + alt(PRODUCERS + REPLACERS) + r':deps$', r'^ev:MessageSent$', r'^ledger$', r'^supply$'],
+                # an emitting transaction that succeeds where it must not emits a message the property forbids
+                only_impl_ok=[r'^tx:' + alt(PRODUCERS + REPLACERS) + r':out$'],
                 ops=[('tx', t) for t in PRODUCERS + REPLACERS]),
     'C06': dict(level='proof', scenarios=[('history', 4000, 30000, 'send')],
                 tags=[r'^tx:' + alt(PRODUCERS + REPLACERS) + r':resp$', r'^ev:(MessageSent|DepositForBurn)$'],
